@@ -4,6 +4,9 @@ other checks), restore /repo, and write seeded/RESULTS.md.  /repo must be clean 
 import json, os, subprocess, sys, glob, time
 V = os.path.dirname(os.path.dirname(os.path.abspath(__file__)))
 REPO = '/repo'
+# default: work on a scratch copy of /repo (other jobs may be reading /repo); SEED_INPLACE=1 patches /repo itself
+INPLACE = os.environ.get('SEED_INPLACE') == '1'
+WORK = REPO if INPLACE else '/tmp/seedtest-repo'
 
 
 def sh(cmd, cwd=None, timeout=3000):
@@ -16,6 +19,8 @@ def main():
     rc, out = sh('git status --porcelain', REPO)
     if out.strip():
         print('refusing: /repo is not clean'); sys.exit(2)
+    if not INPLACE:
+        sh('rm -rf %s && cp -r %s %s' % (WORK, REPO, WORK))
     rows = []
     for d in sorted(glob.glob(os.path.join(V, 'seeded', '*', '*'))):
         if not os.path.isfile(os.path.join(d, 'patch.diff')):
@@ -27,22 +32,22 @@ def main():
         meta = json.load(open(os.path.join(d, 'meta.json'))) if os.path.exists(os.path.join(d, 'meta.json')) else {}
         checks = meta.get('checks', [prop])
         try:
-            rc, out = sh('git apply %s' % os.path.join(d, 'patch.diff'), REPO)
+            rc, out = sh('git apply %s' % os.path.join(d, 'patch.diff'), WORK)
             if rc != 0:
                 rows.append((tag, 'PATCH DOES NOT APPLY', out.strip()[:100]))
                 continue
             res = []
             for c in checks:
                 t0 = time.time()
-                rc, out = sh('./check %s --tier quick' % c, V)
+                rc, out = sh('VERIF_REPO=%s ./check %s --tier quick' % (WORK, c), V)
                 viol = [l for l in out.split('\n') if l.startswith('VIOLATION')]
                 res.append('%s:%s(%.0fs)' % (c, 'CAUGHT' if (rc != 0 and viol) else 'missed', time.time() - t0))
                 if viol:
                     res.append(viol[0][:120])
             rows.append((tag, ' '.join(res[:1]), ' | '.join(res[1:])))
         finally:
-            sh('git checkout -- .', REPO)
-            sh('git clean -fdq transitions', REPO)
+            sh('git checkout -- .', WORK)
+            sh('git clean -fdq transitions', WORK)
     with open(os.path.join(V, 'seeded', 'RESULTS.md'), 'a') as f:
         f.write('\n## run %s\n\n| change | verdict | detail |\n|---|---|---|\n' % time.strftime('%Y-%m-%d %H:%M'))
         for r in rows:
@@ -51,6 +56,8 @@ def main():
         print(' | '.join(r))
     rc, out = sh('git status --porcelain', REPO)
     assert not out.strip(), 'repo not clean after seedtest!'
+    if not INPLACE:
+        sh('rm -rf %s' % WORK)
 
 
 if __name__ == '__main__':
